@@ -97,7 +97,7 @@ def judge_run(sc, plan, res, use_matcher=True, overread=False, inst=0):
         viols.append(model.Viol('crash', -1, 'simulated process died: %s' % res.status))
     elif sc_cls == 'hang':
         viols.append(model.Viol('hang', -1, 'run did not terminate within the time cap'))
-    elif sc_cls == 'abnormal-exit':
+    elif sc_cls == 'abnormal-exit' and res.status is not None:     # (no status at all: the batch process was cut short - no verdict)
         viols.append(model.Viol('crash', -1, 'simulated process ended with %s: %s' % (res.status, res.stderr[:200])))
     return m, viols
 
